@@ -1,0 +1,46 @@
+//go:build verif
+
+// Specification functions for the contracts checked by /verif (govc), written
+// from RFC 6386 section 7.3 (the boolean entropy decoder); compiled only under
+// the verif build tag.
+
+package bitio
+
+// specBoolSplit: RFC 6386 7.3, "split = 1 + (((range - 1) * probability) >> 8)"
+// for the true range (128..255).
+func specBoolSplit(rng uint32, prob uint8) uint32 {
+	return 1 + (((rng - 1) * uint32(prob)) >> 8)
+}
+
+// specBoolRange: the range after decoding one symbol, before normalisation:
+// range - split when the bit is 1 (value >= split), split otherwise.
+func specBoolRange(rng uint32, prob uint8, bit bool) uint32 {
+	split := specBoolSplit(rng, prob)
+	if bit {
+		return rng - split
+	}
+	return split
+}
+
+// specNormShift: RFC 6386 7.3, "while (range < 128) { value <<= 1; range <<= 1; ... }":
+// the number of doublings that brings a range of 1..255 to 128..255.
+func specNormShift(rng uint32) int {
+	n := 0
+	for i := 0; i < 7; i++ {
+		if rng < 128 {
+			rng <<= 1
+			n++
+		}
+	}
+	return n
+}
+
+// specNormRange: the range after those doublings.
+func specNormRange(rng uint32) uint32 {
+	for i := 0; i < 7; i++ {
+		if rng < 128 {
+			rng <<= 1
+		}
+	}
+	return rng
+}
